@@ -114,6 +114,15 @@ Theorem c16_ready_spec : forall n alg ls s e,
 Proof. exact ready_spec. Qed.
 Print Assumptions c16_ready_spec.
 
+(* ---------------------------------------------------------------- the serial queue *)
+(* SerialExecutionQueue loses a job that the running job adds after the destructor has queued its sentinel: the worker
+   leaves at the sentinel and the job behind it is destroyed unrun.  (The lane-based queue runs it: c16_can_terminate.) *)
+Theorem c16_serial_drop_refuted :
+  exists ls s, saccepts sinit ls = Some s /\ ss_exited s = true /\ ss_running s = None /\
+               In 1 (ss_added s) /\ ~ In 1 (ss_finished s) /\ slost s = [1].
+Proof. exact serial_drop_refuted. Qed.
+Print Assumptions c16_serial_drop_refuted.
+
 (* ---------------------------------------------------------------- cancellation *)
 Theorem c16_no_spawn_after_cancel : forall n alg pre post s,
   accepts (init n alg) (pre ++ Cancel :: post) = Some s -> forallb (fun a => negb (is_spawn a)) post = true.
